@@ -479,7 +479,7 @@ def run(res, only=None):
     jobs.sort(key=lambda j: -(j[1] if len(j) > 1 and j[1] <= 10 else 0))
     out = common.pmap(_dispatch, jobs, chunk=1)
     nontriv = 0
-    for r in out:
+    for _j, r in common.good(jobs, out, res):
         res.add("transitions", r["cnt"]["transitions"])
         res.add("evaluations", r["cnt"]["evaluations"])
         res.add("traces_validated_against_impl", r["cnt"]["transitions"])
